@@ -146,6 +146,27 @@ def run_arith(chk, bindir, tier, build="debug"):
             indom += 1
         if nt:
             nontriv.add((l["op"], l["ty"], tuple(l["a"]), tuple(l["b"])))
+    # cross-check of the machinery: TLC's verdict (definition evaluated in limb arithmetic) against a
+    # python big-integer evaluation of the same definition; a disagreement is a tool error
+    badset0 = set(bad)
+    for i, l in enumerate(lines):
+        e, _ = expected(l)
+        o = l["out"]
+        if e == "nopanic":
+            want_bad = o[0] == "panic"
+        elif isinstance(e, tuple) and e[0] == "elapsed":
+            continue
+        elif e == "cmp":
+            continue
+        elif e == "none":
+            want_bad = o[0] != "none"
+        else:
+            want_bad = not (o[0] == "some" and (o[1], o[2]) == (e[1], e[2]))
+            if l["op"] == "to_timespec" and o[0] == "panic":
+                want_bad = True
+        if want_bad != (i in badset0):
+            raise core.ToolError("oracle disagreement on %s: TLC %s, python reference %s (expected %s)" % (
+                l, "rejects" if i in badset0 else "accepts", "rejects" if want_bad else "accepts", e))
     for i in bad:
         l = lines[i]
         e, _ = expected(l)
